@@ -169,8 +169,28 @@ def check(repo, rep):
                         if meth == 'get':
                             kws = {k.arg: k.value for k in call.keywords}
                             nonblocking = ('timeout' in kws and not (isinstance(kws['timeout'], ast.Constant) and kws['timeout'].value is None)) or \
-                                ('block' in kws and isinstance(kws['block'], ast.Constant) and kws['block'].value is False) or (len(call.args) >= 2)
+                                ('block' in kws and isinstance(kws['block'], ast.Constant) and kws['block'].value is False) or (len(call.args) >= 2) or \
+                                (len(call.args) == 1 and isinstance(call.args[0], ast.Constant) and call.args[0].value is False)          # get(False)
                             rep.ob('F2: every blocking get carries a timeout (a worker can always notice its stop marker)', nonblocking, cx.where(mod, n), '%s.%s:get-without-timeout' % (cl.name if cl else mod, fn.name if fn else '?'))
+                    elif isinstance(par, ast.Assign) and len(par.targets) == 1 and isinstance(par.targets[0], ast.Name) and par.value is n and fn is not None:
+                        # inbox = self._inbox : a local alias inside the worker's own method; every use of the alias must be one of the
+                        # allowed method calls (a blocking get with a timeout), and the alias itself must go nowhere else
+                        nm_ = par.targets[0].id
+                        uses_ = [u for u in ast.walk(fn) if isinstance(u, ast.Name) and u.id == nm_ and isinstance(u.ctx, ast.Load)]
+                        okall = True
+                        for u in uses_:
+                            up = getattr(u, '_parent', None)
+                            if not (isinstance(up, ast.Attribute) and isinstance(getattr(up, '_parent', None), ast.Call) and up._parent.func is up and up.attr in ('put', 'get', 'get_nowait', 'put_nowait')):
+                                okall = False
+                                continue
+                            if up.attr == 'get':
+                                c_ = up._parent
+                                kws_ = {k.arg: k.value for k in c_.keywords}
+                                nb_ = ('timeout' in kws_ and not (isinstance(kws_['timeout'], ast.Constant) and kws_['timeout'].value is None)) or \
+                                    ('block' in kws_ and isinstance(kws_['block'], ast.Constant) and kws_['block'].value is False) or len(c_.args) >= 2 or \
+                                    (len(c_.args) == 1 and isinstance(c_.args[0], ast.Constant) and c_.args[0].value is False)
+                                rep.ob('F2: every blocking get carries a timeout (a worker can always notice its stop marker)', nb_, cx.where(mod, u), '%s.%s:get-without-timeout' % (cl.name if cl else mod, fn.name))
+                        rep.ob('F2: the inbox object does not escape', okall, cx.where(mod, n), '%s.%s:inbox-escapes' % (cl.name if cl else mod, fn.name if fn else '?'), 'the local alias %s of the inbox is used other than through put / get / get_nowait' % nm_)
                     elif isinstance(par, ast.Attribute) and par.attr in ('put', 'get_nowait', 'put_nowait') and isinstance(getattr(par, '_parent', None), ast.Assign) \
                             and all(isinstance(t_, ast.Name) for t_ in par._parent.targets):
                         # local = self._inbox.get_nowait : a bound method of the queue kept in a local of the worker's own method (a hoisted
